@@ -1,7 +1,7 @@
 CONSTANTS
   Variant = "location_raw"
   Family = "redirect"
-  Size = "q"
+  Size = "m"
 INIT Init
 NEXT Next
 CHECK_DEADLOCK FALSE
